@@ -25,6 +25,14 @@ fn main() {
         }
         return;
     }
+    if args[0] == "--probe-decode" {
+        if args.len() != 4 {
+            usage();
+        }
+        let depth: u32 = args[1].parse().unwrap_or_else(|_| usage());
+        let kind: u8 = args[2].parse().unwrap_or_else(|_| usage());
+        std::process::exit(props::c16::probe_decode_main(depth, kind, args[3] == "1"));
+    }
     if args[0] == "--e2e-child" {
         if args.len() != 3 {
             usage();
